@@ -886,11 +886,11 @@ theorem gen_edges_for :
 theorem gen_rolled :
     (PW.Gen.PolyOps.rollRefusesWhen = "not self.is_closed" ∧ PW.Gen.PolyOps.rollRaises = "ValueError" ∧
       PW.Gen.PolyOps.rollCoef = -1 ∧ PW.Gen.PolyOps.rollTerm = "index" ∧ PW.Gen.PolyOps.rollOffset = 0 ∧
-      PW.Gen.PolyOps.rollMappingSameShift = true ∧ PW.Gen.PolyOps.rolledIsClosed = true ∧
-      PW.Gen.PolyOps.rolledSamePolyline = true) ∧
+      PW.Gen.PolyOps.rollMappingSameShift = some true ∧ PW.Gen.PolyOps.rolledIsClosed = some true ∧
+      PW.Gen.PolyOps.rolledSamePolyline = some true) ∧
     ∀ (p : Polyline K) (index : Int), p.rolled index =
       if !p.closed then .error .ValueError
-      else .ok (⟨npRoll p.v (PW.Gen.PolyOps.rollCoef * index + PW.Gen.PolyOps.rollOffset), PW.Gen.PolyOps.rolledIsClosed⟩,
+      else .ok (⟨npRoll p.v (PW.Gen.PolyOps.rollCoef * index + PW.Gen.PolyOps.rollOffset), PW.Gen.PolyOps.rolledIsClosed.getD false⟩,
                 npRoll (List.range p.numV) (PW.Gen.PolyOps.rollCoef * index + PW.Gen.PolyOps.rollOffset)) := by
   refine ⟨⟨rfl, rfl, by decide, rfl, by decide, by decide, by decide, by decide⟩, ?_⟩
   intro p index
@@ -955,11 +955,11 @@ theorem gen_sectioned :
     the generated comparison and `minlength`, and `indicesOfInsertedPoints` uses the stable argsort. -/
 theorem gen_with_insertions :
     (PW.Gen.PolyOps.insertSrc = "Polyline(is_closed=self.is_closed, v=np.insert(self.v, indices, points, axis=0))" ∧
-      PW.Gen.PolyOps.insertSamePolyline = true ∧ PW.Gen.PolyOps.negIndexCmp = .lt ∧
+      PW.Gen.PolyOps.insertSamePolyline = some true ∧ PW.Gen.PolyOps.negIndexCmp = .lt ∧
       PW.Gen.PolyOps.negIndexLhs = "indices" ∧ PW.Gen.PolyOps.negIndexRhs = 0 ∧
       PW.Gen.PolyOps.negIndexThen = "indices + self.num_v" ∧ PW.Gen.PolyOps.minlengthCoef = 1 ∧
       PW.Gen.PolyOps.minlengthTerm = "self.num_v" ∧ PW.Gen.PolyOps.minlengthOffset = 1 ∧
-      PW.Gen.PolyOps.sortKind = "stable" ∧ PW.Gen.PolyOps.sortOfNorm = true) ∧
+      PW.Gen.PolyOps.sortKind = "stable" ∧ PW.Gen.PolyOps.sortOfNorm = some true) ∧
     (PW.Gen.PolyOps.originalIndicesSrc =
         "np.arange(self.num_v) + np.cumsum(np.bincount(NORM, minlength=self.num_v + 1)[:self.num_v])" ∧
       PW.Gen.PolyOps.insertedIndicesSrc =
@@ -979,22 +979,97 @@ theorem gen_with_insertions :
     have h : ((1 : Int) * (n : Int) + 1).toNat = n + 1 := by omega
     simp only [indicesOfOriginalVertices, PW.Gen.PolyOps.minlengthCoef, PW.Gen.PolyOps.minlengthOffset, h]
 
-/-- `flipped`, `join`, `index_of_vertex` (default `atol=1e-08`) and `aligned_with` (`num_v < 2`, scale factor `< 0`):
-    the expressions and literals the model's `flipped`, `join`, `indexOfVertex`, `alignedWith` were written from. -/
+/-- [semantic + text] `flipped`, `join`, `index_of_vertex`, `aligned_with`.  Semantic: `join` refuses
+    `len(polylines) == 0` and then any closed input, with the generated operator, bound and classes (the model's `join`);
+    `index_of_vertex` raises the generated class when nothing matches (the model's `indexOfVertex`); `aligned_with`
+    refuses a closed polyline with the generated class, returns the receiver when `num_v < 2` and flips when the scale
+    factor is `< 0`, with the generated operators and bounds (the model's `alignedWith`).  Text only: `"np.flipud"` ↔
+    `List.reverse`, the `np.isclose(…).all(axis=1).nonzero()[0]` expression ↔ `findIdx?` (first match), the
+    `vg.scale_factor(vg.project(…))` expression, and the default `atol=1e-08` of `index_of_vertex` — the model takes
+    `atol` as an argument (the driver is handed the value the harness passes), so the default has no counterpart in it;
+    it is pinned here and again, with the whole parameter list, in `gen_function_shapes`. -/
 theorem gen_other_methods :
-    PW.Gen.PolyOps.flippedSrc = "Polyline(is_closed=self.is_closed, v=np.flipud(self.v))" ∧
-    (PW.Gen.PolyOps.joinEmptyCmp = .eq ∧ PW.Gen.PolyOps.joinEmptyLhs = "len(polylines)" ∧
-      PW.Gen.PolyOps.joinEmptyRhs = 0 ∧
+    (PW.Gen.PolyOps.flippedSrc = "Polyline(is_closed=self.is_closed, v=np.flipud(self.v))" ∧
+      PW.Gen.PolyOps.flippedWrapper = "np.flipud" ∧
+      PW.Gen.PolyOps.joinEmptyLhs = "len(polylines)" ∧
       PW.Gen.PolyOps.joinClosedRefusal = "any([polyline.is_closed for polyline in polylines])" ∧
-      PW.Gen.PolyOps.joinRaises = ["ValueError", "ValueError"] ∧
-      PW.Gen.PolyOps.joinSrc = "cls(np.vstack([polyline.v for polyline in polylines]), is_closed=is_closed)") ∧
-    (PW.Gen.PolyOps.indexOfVertexAtol = (1 : Rat) / 100000000 ∧
+      PW.Gen.PolyOps.joinSrc = "cls(np.vstack([polyline.v for polyline in polylines]), is_closed=is_closed)" ∧
+      PW.Gen.PolyOps.indexOfVertexAtol = (1 : Rat) / 100000000 ∧
       PW.Gen.PolyOps.indexOfVertexSrc = "_only(np.isclose(-point + self.v, 0, atol=atol).all(axis=1).nonzero())[0]" ∧
-      PW.Gen.PolyOps.indexOfVertexRaises = "ValueError") ∧
-    (PW.Gen.PolyOps.alignShortCmp = .lt ∧ PW.Gen.PolyOps.alignShortLhs = "self.num_v" ∧
-      PW.Gen.PolyOps.alignShortRhs = 2 ∧ PW.Gen.PolyOps.alignFlipCmp = .lt ∧
-      PW.Gen.PolyOps.alignFlipLhs = "vg.scale_factor(vg.project(self.v[-1] - self.v[0], onto=vector), vector)" ∧
-      PW.Gen.PolyOps.alignFlipRhs = 0) :=
-  ⟨rfl, ⟨by decide, rfl, by decide, rfl, by decide, rfl⟩, ⟨rfl, rfl, rfl⟩, ⟨by decide, rfl, by decide, by decide, rfl, by decide⟩⟩
+      PW.Gen.PolyOps.indexOfVertexPick = 0 ∧
+      PW.Gen.PolyOps.alignShortLhs = "self.num_v" ∧ PW.Gen.PolyOps.alignClosedRefusal = "self.is_closed" ∧
+      PW.Gen.PolyOps.alignFlipLhs = "vg.scale_factor(vg.project(self.v[-1] - self.v[0], onto=vector), vector)") ∧
+    (PW.Gen.PolyOps.joinEmptyCmp = .eq ∧ PW.Gen.PolyOps.joinEmptyRhs = 0 ∧
+      PW.Gen.PolyOps.joinRaises = ["ValueError", "ValueError"] ∧ PW.Gen.PolyOps.indexOfVertexRaises = "ValueError" ∧
+      PW.Gen.PolyOps.alignShortCmp = .lt ∧ PW.Gen.PolyOps.alignShortRhs = 2 ∧ PW.Gen.PolyOps.alignFlipCmp = .lt ∧
+      PW.Gen.PolyOps.alignFlipRhs = 0 ∧ PW.Gen.PolyOps.alignRaises = "ValueError") ∧
+    (∀ {K : Type} (ps : List (Polyline K)) (isClosed : Bool), Polyline.join ps isClosed =
+      if PW.Gen.PolyOps.joinEmptyCmp.test (ps.length : Int) PW.Gen.PolyOps.joinEmptyRhs then
+        .error (PW.Gen.errOfName (PW.Gen.PolyOps.joinRaises.getD 0 ""))
+      else if ps.any (·.closed) then .error (PW.Gen.errOfName (PW.Gen.PolyOps.joinRaises.getD 1 ""))
+      else .ok ⟨ps.flatMap (·.v), isClosed⟩) ∧
+    (∀ {K : Type} [Field K] [LinearOrder K] [IsStrictOrderedRing K] (p : Polyline K) (point : V3 K) (atol : K),
+      p.indexOfVertex point atol =
+        match p.v.findIdx? (closeTo atol point) with
+        | some i => .ok i
+        | none => .error (PW.Gen.errOfName PW.Gen.PolyOps.indexOfVertexRaises)) ∧
+    (∀ {K : Type} [Field K] [LinearOrder K] [IsStrictOrderedRing K] [Sqrt K] (p : Polyline K) (vector : V3 K),
+      p.alignedWith vector =
+        if p.closed then .error (PW.Gen.errOfName PW.Gen.PolyOps.alignRaises)
+        else if PW.Gen.PolyOps.alignShortCmp.test (p.numV : Int) PW.Gen.PolyOps.alignShortRhs then .ok (p, true)
+        else
+          match p.v.head?, p.v.getLast? with
+          | some first, some last =>
+            (let extent := last - first
+             let unit := V3.normalize vector
+             let projected := V3.smul (extent.dot unit) unit
+             let pp := projected.dot projected
+             let pv := projected.dot vector
+             if pp == 0 then .ok (p, true)
+             else if PW.Gen.PolyOps.alignFlipCmp.test (pv / pp) ((PW.Gen.PolyOps.alignFlipRhs : Int) : K) then
+               .ok (p.flipped, false)
+             else .ok (p, true))
+          | _, _ => .ok (p, true)) := by
+  refine ⟨⟨rfl, rfl, rfl, rfl, rfl, rfl, rfl, by decide, rfl, rfl, rfl⟩,
+    ⟨by decide, by decide, by decide, rfl, by decide, by decide, by decide, by decide, rfl⟩, ?_, ?_, ?_⟩
+  · intro K ps isClosed
+    cases ps <;>
+      simp [Polyline.join, PW.Gen.Cmp.test, PW.Gen.PolyOps.joinEmptyCmp, PW.Gen.PolyOps.joinEmptyRhs,
+        PW.Gen.PolyOps.joinRaises, PW.Gen.errOfName]
+    omega
+  · intro K _ _ _ p point atol
+    rfl
+  · intro K _ _ _ _ p vector
+    obtain ⟨v, closed⟩ := p
+    unfold Polyline.alignedWith
+    rcases v with _ | ⟨a, _ | ⟨b, t⟩⟩
+    · simp [PW.Gen.Cmp.test, PW.Gen.PolyOps.alignShortCmp, PW.Gen.PolyOps.alignShortRhs, PW.Gen.PolyOps.alignRaises,
+        PW.Gen.errOfName, Polyline.numV]
+    · simp [PW.Gen.Cmp.test, PW.Gen.PolyOps.alignShortCmp, PW.Gen.PolyOps.alignShortRhs, PW.Gen.PolyOps.alignRaises,
+        PW.Gen.errOfName, Polyline.numV]
+    · have hs : ¬ ((t.length : Int) + 1 + 1 < 2) := by omega
+      cases hgl : (b :: t).getLast? with
+      | none => simp at hgl
+      | some l =>
+        simp [hgl, hs, PW.Gen.Cmp.test, PW.Gen.PolyOps.alignShortCmp, PW.Gen.PolyOps.alignShortRhs,
+          PW.Gen.PolyOps.alignFlipCmp, PW.Gen.PolyOps.alignFlipRhs, PW.Gen.PolyOps.alignRaises, PW.Gen.errOfName,
+          Polyline.numV]
+
+/-- [text] what the symbolic reader does not interpret, pinned to the source the model was written from: for every
+    function read by `harness/translate/c09.py` its decorators, its parameter list with defaults (among them
+    `atol=1e-08`), the statements whose effect is not modelled (shape checks, the `try` of `index_of_vertex` — any added
+    in-place call, loop, `with`, `del`, … shows up here), and the number of other bindings of its name in the enclosing
+    scope. -/
+theorem gen_function_shapes :
+    PW.Gen.PolyOps.functionShapes =
+      [("edges_for", [], "num_v, is_closed", [], 0),
+       ("Polyline.rolled", [], "self, index, ret_edge_mapping=False", [], 0),
+       ("Polyline.sliced_at_indices", [], "self, start, stop", [], 0),
+       ("Polyline.sectioned", [], "self, section_breakpoints, copy_vs=False", ["expr vg.shape.check(locals(), 'section_breakpoints', (-1,))"], 0),
+       ("Polyline.with_insertions", [], "self, points, indices, ret_new_indices=False", ["expr vg.shape.check(locals(), 'indices', (vg.shape.check(locals(), 'points', (-1, 3)),))"], 0),
+       ("Polyline.flipped", [], "self", [], 0),
+       ("Polyline.join", ["classmethod"], "cls, *polylines, is_closed=False", [], 0),
+       ("Polyline.index_of_vertex", [], "self, point, atol=1e-08", ["expr vg.shape.check(locals(), 'point', (3,))", "try"], 0),
+       ("Polyline.aligned_with", [], "self, vector", ["expr vg.shape.check(locals(), 'vector', (3,))"], 0)] := by rfl
 
 end PW.C09
